@@ -92,3 +92,15 @@ Example ex_refinement :
   /\ abs init_state (CG (GFlag i_notify_on_change)) = v_true /\ abs init_state (CG GPerm) = v_none
   /\ aexec example_prog (abs init_state) = ([VD [(0%Z, AOv 1 true false); (1%Z, AOv 3 false false)]; v_true], false).
 Proof. split; [reflexivity|]. split; [apply refines_abs|]. vm_compute. auto. Qed.
+
+(* DynamicEvaluationContext.collect()/apply() as composed by the harness: guard, dynamic_evaluate, stack of contexts.
+   A per-thread context entered inside a process-wide one is refused (ValueError) and nothing is changed. *)
+Definition collect (per_thread : bool) (id : Z) (body : sprog) : sprog :=
+  Scope CDynGuard (VA (ABool per_thread))
+    (Scope (if per_thread then CDynEval else CDynEvalGlobal) (VA (AInt (100 + id)))
+       (Scope (if per_thread then CDynStackL else CDynStackG) (VD [(0%Z, AInt id)]) body)).
+Example ex_mixing_refused :
+  let p := collect false 2 (Seq (Catch (collect true 0 (Obs GDynEval))) (Seq (Obs GDynEval) (Obs GDynStackG))) in
+  observations (exec p init_state) = [VA (AInt 102); VS [[(0%Z, AInt 2)]]] /\ escapes (exec p init_state) = false
+  /\ valid_prog p = true /\ aexec p (abs init_state) = ([VA (AInt 102); VS [[(0%Z, AInt 2)]]], false).
+Proof. vm_compute. auto. Qed.
